@@ -681,6 +681,12 @@ func (f *File) ReadAt(b []byte, off int64) (int, error) {
 		if e := f.checkOpen("read"); e != nil {
 			return e
 		}
+		if off < 0 {
+			return pathErr("readat", f.name, simpleErr("negative offset"))
+		}
+		if len(b) == 0 {
+			return nil // the real ReadAt issues no system call for an empty buffer
+		}
 		if !f.readable() {
 			return pathErr("read", f.name, syscall.EBADF)
 		}
@@ -714,6 +720,9 @@ func (f *File) Read(b []byte) (int, error) {
 	err := f.fsys.do(OpRead, f.path, "", f.off, len(b), nil, func(int) error {
 		if e := f.checkOpen("read"); e != nil {
 			return e
+		}
+		if len(b) == 0 {
+			return nil
 		}
 		if !f.readable() {
 			return pathErr("read", f.name, syscall.EBADF)
@@ -761,6 +770,9 @@ func (f *File) Write(b []byte) (int, error) {
 		if f.flag&O_APPEND != 0 {
 			at = int64(len(f.ino.data))
 		}
+		if len(src) == 0 {
+			return nil // no effect, the offset stays where it was
+		}
 		f.fsys.writeAt(f.ino, src, at)
 		f.off = at + int64(len(src))
 		n = len(src)
@@ -801,6 +813,9 @@ func (f *File) WriteAt(b []byte, off int64) (int, error) {
 }
 
 func (fsys *FS) writeAt(n *inode, src []byte, at int64) {
+	if len(src) == 0 {
+		return // a zero-length write never extends the file
+	}
 	if w := simrt.Current(); w != nil {
 		n.mtime = w.Now()
 	}
